@@ -12,6 +12,7 @@ mod locks;
 mod mutate;
 mod names;
 mod raw;
+mod sparse;
 mod timeconv;
 mod util;
 
@@ -202,6 +203,7 @@ fn main() {
             }
         }
         "upper-dump" => names::upper_dump(arg(&args, "--out").unwrap()),
+        "sparse" => sparse::run(),
         "names" => {
             let ops = arg(&args, "--ops").unwrap();
             let imp = arg(&args, "--impl").unwrap();
